@@ -104,6 +104,22 @@ CLAIMED["C18"] = dict(
          "data are fixed small sets (7 points). Loading into an EXISTING model with caches is C03's LoadStateDict action.",
     technique="TLA+ carrier/mechanism machine checked by TLC on the introspected inventory; round trips replayed on a zoo of real model families at TLC save points")
 
+CLAIMED["C01"] = dict(
+    category="model_checking",
+    text="ExactPosterior.tla enumerates the full lattice of the seven prediction-relevant settings (128 cells) with the computational path each selects "
+         "(lazy/evaluated kernel, dense/lazy slicing around the eager-size threshold, Cholesky/CG solve, direct solve / Cholesky root cache / Lanczos root cache, "
+         "attached/detached caches, skipped variances) and checks exactly over rationals (LinAlg.tla) that every path formula the code evaluates - joint prior "
+         "split at num_train, mean cache, addmm form, K*x R (K*x R)^T with R R^T = A^-1, likelihood noise added once - equals the Gaussian conditional, which is "
+         "PSD and never larger than the prior. Replay: (L1) TLC's exact rational posteriors of linear-kernel instances through a real ExactGP on sampled cells; "
+         "(L2) seeded models (6 kernel/mean/likelihood families incl. fixed noise and multitask Kronecker x 4 shape classes incl. n=1, model batch, broadcast "
+         "test batch) on every cell against the conditional computed densely from the model's own K, m and S (mean, full covariance, variance, "
+         "likelihood(posterior)).",
+    design_ref="DESIGN.md section 6 (C01)",
+    note="Cholesky paths compared at 1e-7, iterative paths (CG tolerance 1e-12, Lanczos at full rank) at 2e-5 (calibrated on the unchanged tree); instances with "
+         "cond > 1e4 skipped. The dense reference is the spec's CondMean/CondCov written with torch.linalg (the Expr-tree interpreter of DESIGN section 2 was not "
+         "built). Inputs are sampled; the settings lattice is exhaustive.",
+    technique="TLA+ settings/path lattice + exact rational path formulas checked by TLC; every cell replayed on real models against the dense conditional")
+
 PENDING = "check not built yet (build in progress; see DESIGN.md section 11)"
 NOT_APPLICABLE = {}
 
